@@ -372,7 +372,7 @@ def one(ctx, i, rep=None):
 
 
 def run(ctx):
-    for i in ctx.indices(800 if ctx.tier == 'quick' else 20000, 'random'):
+    for i in ctx.indices(4000 if ctx.tier == 'quick' else 20000, 'random'):
         one(ctx, i)
 
 
